@@ -176,6 +176,43 @@ depth2!(c12_typestate_biremote, Stream::accept_bi().upgrade(), Role::BiRemote);
 // @oracle SETTINGS and WT signal => H3_FRAME_UNEXPECTED; invalid id => H3_ID_ERROR; > 4096 => H3_EXCESSIVE_LOAD; DATA/HEADERS/GREASE delivered
 depth2!(c12_typestate_bilocal, Stream::open_bi().upgrade(), Role::BiLocal);
 
+/// ASYNC path (the one the driver uses), first-frame tracking on a peer-opened request stream: frame F1 of a kind fixed
+/// per instance (one payload byte, symbolic), then the WT signal. (Kept as cheap instances next to the full 49-sequence async harnesses, which need per-loop unwinding bounds to fit.)
+macro_rules! async_wt_after {
+    ($name:ident, $t:literal) => {
+        #[kani::proof]
+        #[kani::unwind(3)]
+        #[kani::stub(<wtransport_proto::bytes::IoReadError as std::convert::From<std::io::Error>>::from, crate::common::io_read_err_stub)]
+        fn $name() {
+            use wtransport_proto::stream::IoReadError;
+            let pb: u8 = kani::any();
+            let sid_q: u8 = kani::any();
+            kani::assume(sid_q < 16);
+            let wire: [u8; 6] = [$t, 0x01, pb, 0x40, 0x41, sid_q << 2];
+            let mut st = Stream::accept_bi().upgrade();
+            let mut rd = ByteReader::<6> { data: wire, len: 6, off: 0 };
+            let r1 = poll_once(st.read_frame_async(&mut rd)).unwrap();
+            match r1 {
+                Ok(f) => {
+                    assert!(kind_id(f.kind()) == $t as u64 && f.payload().len() == 1 && f.payload()[0] == pb, "first frame altered (async)");
+                    assert!(rd.off == 3);
+                    core::mem::forget(f);
+                }
+                Err(_) => assert!(false, "permitted first frame rejected by the async reader"),
+            }
+            let r2 = poll_once(st.read_frame_async(&mut rd)).unwrap();
+            match r2 {
+                Err(IoReadError::H3(e)) => {
+                    assert!(e.to_code().into_inner() == H3_FRAME_ERROR, "WT signal that is not the first frame: wrong error code (async)");
+                    kani::cover!(true, "late WT signal refused (async)");
+                }
+                Ok(_) => assert!(false, "WT signal accepted although it is not the first frame on the stream (async reader)"),
+                Err(_) => assert!(false, "unexpected I/O error"),
+            }
+        }
+    };
+}
+
 macro_rules! depth2_async {
     ($name:ident, $mk:expr, $role:expr) => {
         #[kani::proof]
@@ -210,7 +247,6 @@ macro_rules! depth2_async {
                         (Err(IoReadError::H3(e)), Err(code)) => {
                             assert!(e.to_code().into_inner() == code, "second frame: wrong error code (async)");
                             kani::cover!(s1 == 5 && s2 == 3, "WT signal after GREASE refused (async)");
-                            kani::cover!(s2 == 6, "oversize second frame (async)");
                         }
                         (Ok(_), Err(_)) => assert!(false, "prohibited second frame accepted by the async reader"),
                         _ => assert!(false, "permitted second frame rejected by the async reader"),
@@ -229,27 +265,51 @@ macro_rules! depth2_async {
 
 // @h props=C12,C15 tier=quick t=2400 mem=20 sub=typestate-async-biremote covers=any
 // @fn wtransport-proto/src/stream.rs StreamBiRemoteH3::{read_frame_async,validate_frame}; wtransport-proto/src/frame.rs Frame::read_async
-// @bound peer-opened request stream read through the ASYNC reader (the path the driver uses); all 49 sequences of two frames over the 7-symbol alphabet, byte-wise delivery
-// @oracle same reference table as c12_typestate_biremote; in particular a WT signal is valid only as the very first delivered frame (GREASE before it counts), otherwise H3_FRAME_ERROR
+// @bound peer-opened request stream read through the ASYNC reader; all 49 sequences of two frames over the 7-symbol alphabet, byte-wise delivery
+// @oracle same reference table as c12_typestate_biremote
 // @assume From<io::Error> stub; model source never errors / never Pending (L1 covers chunkings)
-// @unwindset read_frame_async:3
+// @unwindset read_frame_async:1 GetBuffer:3 GetVarint:3
 depth2_async!(c12_typestate_async_biremote, Stream::accept_bi().upgrade(), Role::BiRemote);
 
 // @h props=C12,C15 tier=quick t=2400 mem=20 sub=typestate-async-control covers=any
 // @fn wtransport-proto/src/stream.rs StreamUniRemoteH3::{read_frame_async,validate_frame}
-// @bound control stream, async reader; as c12_typestate_async_biremote
+// @bound control stream, async reader; all 49 sequences of two frames over the 7-symbol alphabet
 // @oracle same reference table as c12_typestate_control
 // @assume as c12_typestate_async_biremote
-// @unwindset read_frame_async:3
+// @unwindset read_frame_async:1 GetBuffer:3 GetVarint:3
 depth2_async!(c12_typestate_async_control, control_stream(), Role::Control);
 
 // @h props=C12,C15 tier=thorough t=2400 mem=20 sub=typestate-async-bilocal covers=any
 // @fn wtransport-proto/src/stream.rs StreamBiLocalH3::{read_frame_async,validate_frame}
-// @bound locally-opened request stream, async reader; as c12_typestate_async_biremote
+// @bound locally-opened request stream, async reader; all 49 sequences
 // @oracle same reference table as c12_typestate_bilocal
 // @assume as c12_typestate_async_biremote
-// @unwindset read_frame_async:3
+// @unwindset read_frame_async:1 GetBuffer:3 GetVarint:3
 depth2_async!(c12_typestate_async_bilocal, Stream::open_bi().upgrade(), Role::BiLocal);
+
+// @h props=C12,C15 tier=quick t=2400 mem=20 sub=typestate-async-first-frame
+// @fn wtransport-proto/src/stream.rs StreamBiRemoteH3::{read_frame_async,validate_frame}; wtransport-proto/src/frame.rs Frame::read_async
+// @bound peer-opened request stream, async reader: a GREASE frame (type 0x21, one symbolic payload byte) followed by a WT signal with any 1-byte valid session id
+// @oracle the GREASE frame is delivered and counts as the first frame: the WT signal after it is refused with H3_FRAME_ERROR (same table as the one-shot reader, c12_typestate_biremote)
+// @assume From<io::Error> stub; byte-wise model source (L1 covers chunkings)
+// @unwindset read_frame_async:1
+async_wt_after!(c12_async_wt_after_grease, 0x21);
+
+// @h props=C12,C15 tier=quick t=2400 mem=20 sub=typestate-async-first-frame
+// @fn wtransport-proto/src/stream.rs StreamBiRemoteH3::{read_frame_async,validate_frame}
+// @bound as c12_async_wt_after_grease with a DATA frame first
+// @oracle as c12_async_wt_after_grease
+// @assume as c12_async_wt_after_grease
+// @unwindset read_frame_async:1
+async_wt_after!(c12_async_wt_after_data, 0x00);
+
+// @h props=C12,C15 tier=thorough t=2400 mem=20 sub=typestate-async-first-frame
+// @fn wtransport-proto/src/stream.rs StreamBiRemoteH3::{read_frame_async,validate_frame}
+// @bound as c12_async_wt_after_grease with a HEADERS frame first
+// @oracle as c12_async_wt_after_grease
+// @assume as c12_async_wt_after_grease
+// @unwindset read_frame_async:1
+async_wt_after!(c12_async_wt_after_headers, 0x01);
 
 // @h props=C12,C16 tier=quick t=300 sub=error-code-registry
 // @fn wtransport-proto/src/error.rs ErrorCode::to_code
